@@ -5,6 +5,7 @@ import (
 	"fmt"
 	"os"
 	"reflect"
+	"regexp"
 	"sort"
 	"strings"
 
@@ -65,6 +66,14 @@ func dropEmptyBalances(path string, l []interface{}) []interface{} {
 	return out
 }
 
+var closingList = regexp.MustCompile(`oracle\.closing\[\d+\]\[1\]$`)
+
+func sortedByString(l []interface{}) []interface{} {
+	out := append([]interface{}{}, l...)
+	sort.SliceStable(out, func(i, j int) bool { return fmt.Sprint(out[i]) < fmt.Sprint(out[j]) })
+	return out
+}
+
 // sortedByKey orders a list of objects by their address (export order is store order, which is the same on both nodes except
 // where a module iterates a Go map to build the list).
 func sortedByKey(l []interface{}) []interface{} {
@@ -122,6 +131,12 @@ func diffJSON(path string, a, b interface{}, tolerateHeights bool, out *[]string
 		y, ok := b.([]interface{})
 		if ok {
 			x, y = sortedByKey(dropEmptyBalances(path, x)), sortedByKey(dropEmptyBalances(path, y))
+			// the tasks that close in one block: the running node keeps them in the order of their creation, the import rebuilds
+			// the list in store order.  The end-blocker handles each task on its own (aggregation of that task, rewards added to
+			// operators), so the order changes no state; that the two nodes stay equal is what the continuation blocks decide.
+			if closingList.MatchString(path) {
+				x, y = sortedByString(x), sortedByString(y)
+			}
 		}
 		if !ok || len(x) != len(y) {
 			// name the elements that one side lacks
